@@ -187,6 +187,22 @@ func Main() {
 		os.Exit(checkMain(os.Args[2], os.Args[3:]))
 	case "replay":
 		os.Exit(replayMain(os.Args[2]))
+	case "one": // vrun one <check> <params-json> [choices-json]: run a single job verbosely (development aid)
+		runtime.GOMAXPROCS(1)
+		c := registry[os.Args[2]]
+		j := Job{Name: "one", Params: json.RawMessage(os.Args[3]), Replay: &Violation{}}
+		if len(os.Args) > 4 {
+			json.Unmarshal([]byte(os.Args[4]), &j.Replay.Choices)
+		}
+		os.Setenv("VERIF_DEBUG", "1")
+		r := c.Run(j)
+		for _, n := range r.Notes {
+			fmt.Println(n)
+		}
+		for _, v := range r.Violations {
+			fmt.Println("VIOLATION:", v.Desc)
+		}
+		fmt.Printf("execs=%d steps=%d toolerr=%q\n", r.Execs, r.Steps, r.ToolErr)
 	default:
 		fmt.Fprintln(os.Stderr, "unknown command", os.Args[1])
 		os.Exit(2)
@@ -310,7 +326,14 @@ func checkMain(id string, args []string) int {
 	if workers < 1 {
 		workers = 1
 	}
+	tmp, err := os.MkdirTemp("/dev/shm", "vrf-")
+	if err != nil {
+		tmp, _ = os.MkdirTemp("", "vrf-")
+	}
+	os.Setenv("TMPDIR", tmp)
+	defer os.RemoveAll(tmp)
 	results := runJobs(id, jobs, workers)
+	os.RemoveAll(tmp)
 
 	// merge
 	known := loadKnown(filepath.Join(verif, "known_findings.json"))
@@ -326,6 +349,7 @@ func checkMain(id string, args []string) int {
 	exit := 0
 	nviol := 0
 	printedKnown := map[string]bool{}
+	var allViol []string
 	os.MkdirAll(filepath.Join(verif, "replays"), 0o755)
 	for _, r := range results {
 		if os.Getenv("VERIF_VERBOSE") != "" {
@@ -396,6 +420,7 @@ func checkMain(id string, args []string) int {
 				continue
 			}
 			nviol++
+			allViol = append(allViol, r.Name+" :: "+v.Desc)
 			if nviol > 5 {
 				continue // counted, not printed: the first five replays are enough to act on
 			}
@@ -412,6 +437,10 @@ func checkMain(id string, args []string) int {
 				exit = 1
 			}
 		}
+	}
+	os.Remove(filepath.Join(verif, ".work", id+"-violations.txt"))
+	if len(allViol) > 0 {
+		os.WriteFile(filepath.Join(verif, ".work", id+"-violations.txt"), []byte(strings.Join(allViol, "\n")+"\n"), 0o644)
 	}
 	wall := time.Since(t0).Seconds()
 	exhaustive := len(capped) == 0 && exit != 2
